@@ -38,7 +38,13 @@ def demo(name, d):
         dst = os.path.join(REPO, sub, "zz_seeded_demo_test.go")
         shutil.copyfile(f, dst)
         try:
-            rc, o = sh("go test -count=1 -run 'Test' ./%s" % (sub or "."), cwd=REPO, timeout=900)
+            race = ""
+            try:
+                if "-race" in json.load(open(os.path.join(d, "meta.json"))).get("how_to_run_demo", ""):
+                    race = "-race "
+            except Exception:
+                pass
+            rc, o = sh("go test %s-count=1 -run 'Test' ./%s" % (race, sub or "."), cwd=REPO, timeout=900)
         finally:
             os.remove(dst)
         return True, rc == 0, o[-1500:]
